@@ -14,6 +14,7 @@ func init() {
 			ruleWatcher(c, "C04.8")
 			ruleQueueDiscipline(c, "C04.9")
 			ruleErrorDiscipline(c, "C04.10")
+			ruleCloseSafety(c, "C04.11")
 		},
 		Explain:    "Static necessary conditions of tunnel termination reaching both ends: every client loop exit closes the channel with the cause; the server loop defers the cancel of the handlers' root context, derived from the carrier context; the channel close sets the flag, stores the cause, cancels every stream and the channel context, after running the tear-down; new RPCs test the flag in the same critical section; every blocking wait in the package has a release edge fired by the termination functions (A10), with the stream contexts cancelled on every finishing path; close paths reach the carrier (tear-down CloseSend, Stop: CloseSend every instance then wait; Add/Done pairing); sticky errors after finish. Necessary, not sufficient for 'nothing hangs'.",
 		Assume:     []string{"the transport reports failures to Recv", "context cancellation wakes Done() waiters"},
